@@ -60,7 +60,7 @@ def run_case(case):
       out.fail('C05:%s:%s' % (err, sig), 'fresh load after %r: %s' % (s.uas, msg))
       return True
     if structural and all(e[1] == 'row ids' and summary_groupby_record_valued(hr.doc, e[0]) for e in structural):
-      out.fail('C05:reload:summary-groupby-record-valued',
+      out.fail('C05:reload:summary-groupby-object-valued',
                'summary table grouped by a column holding Record values gets different rows in a fresh engine '
                '(record keys decode to RecordStub on load and no longer match)', structural[:3])
       return True
@@ -80,8 +80,17 @@ def run_case(case):
                  'cell %s.%s[%s] still holds NameError after a table it names was added (fresh engine: %r)' % (
                    t, c, r, vb), [[t2, c2, r2, a2, b2] for (t2, c2, r2, a2, b2) in real[:6]])
         return True
+      allfeats = set()
+      for x in real:
+        allfeats.update(formula_features(fm.get((x[0], x[1]), '')))
+      if all(eqv.is_error_cell(x[3]) and eqv.is_error_cell(x[4]) and x[4][1:2] == ['NoneType'] for x in real):
+        out.fail('C05:reload:stored-error-reraised-as-NoneType',
+                 'cell %s.%s[%s] reads an error value stored in a data cell: the live engine re-raises the original '
+                 'exception (%r), a freshly loaded engine raises a wrapper around None (%r)' % (t, c, r, va, vb),
+                 [[t2, c2, r2, a2, b2] for (t2, c2, r2, a2, b2) in real[:6]])
+        return True
       if all(is_keyerror(x[3]) != is_keyerror(x[4]) for x in real) and \
-         set(feats) & set(['lookupRecords', 'lookupOne', 'order_by', 'sort_by', 'PREVIOUS', 'NEXT', 'RANK']):
+         allfeats & set(['lookupRecords', 'lookupOne', 'order_by', 'sort_by', 'PREVIOUS', 'NEXT', 'RANK']):
         out.fail('C05:stale:lookup-KeyError-stale',
                  'cell %s.%s[%s]: lookup on a column that was removed/added keeps its old result '
                  '(incremental %r, fresh %r)' % (t, c, r, va, vb),
